@@ -722,6 +722,9 @@ func (p *pp) printArg(arg interface{}, verb rune)
   ghost ghsv = false at entry
   ghost ghsv = true after "if p.handleSpecialValues(f, t, verb, 0)"
   ghost p.gdone = (!f.IsValid() || ghsv) before "p.printValue(f, verb, 0)"
+  -- a value of a registered safe type is rendered under a context (Safe, or an enclosing Unsafe), also when it is
+  -- a reflect.Value that cannot be interfaced and so never reaches the method dispatch
+  assert [C05] f.IsValid() && safeTypeRegistry[f.Type()] ==> p.buf.gctx != 0 before "p.printValue(f, verb, 0)"
   ghost p.gdone = true before "p.printValue(reflect.ValueOf(f), verb, 0)"
   ensures [C15] verb == 119 && !old(p.erroring) ==> (p.wrapErrs && !isnil(p.wrappedErr) && hasType(p.wrappedErr, "error") && old(p.wrapErrs) && isnil(old(p.wrappedErr))) || (!p.wrapErrs && isnil(p.wrappedErr))
   -- "a correctly used %w renders exactly like %v": an error operand met while the capture is armed and empty is the
@@ -745,6 +748,7 @@ func (p *pp) printArg(arg interface{}, verb rune)
 
 func (p *pp) printValue(value reflect.Value, verb rune, depth int)
   public verb
+  assert [C05] depth > 0 && value.IsValid() && safeTypeRegistry[value.Type()] ==> p.buf.gctx != 0 before "p.arg = nil"
   -- the nesting depth of a value is bounded by the stack that printing it needs (depth + 1 does not wrap)
   assume depth < 4611686018427387904
   requires B(p) && WP(p.fmt)
